@@ -2,7 +2,8 @@
 From Coq Require Import List NArith ZArith Bool.
 From C33 Require Import C16.Proto C16.Model C16.Spec C16.Proofs.
 From C33 Require Import C16.ProtoUnknown C16.ModelUnknown C16.ModelEth C16.SpecExt
-                        C16.ProofsUnknown C16.ProofsUnknown2 C16.ProofsExt.
+                        C16.ProofsUnknown C16.ProofsUnknown2 C16.ProofsExt
+                        C16.ProofsWire C16.ProofsWire2 C16.ProofsWire3 C16.ProofsWire4.
 
 (** The wire encoding determines the transaction (decoder round trip). *)
 Theorem C16_decode_encode : forall t, wf_txb t = true -> decode_tx (encode_tx t) = Some t.
@@ -218,3 +219,42 @@ Print Assumptions C16_eth_accepted_binds.
 Theorem C16_eth_altered_fails_refuted : ~ C16_eth_altered_fails_full.
 Proof. exact eth_altered_fails_refuted. Qed.
 Print Assumptions C16_eth_altered_fails_refuted.
+
+(** * Extension: the general decoder (types.Decode) against the encoder *)
+Theorem C16_wire_decode_encode :
+  forall t, wire_okb t = true -> wire_decode (encode_tx t) = Some (plain t).
+Proof. exact wire_decode_encode_plain. Qed.
+Print Assumptions C16_wire_decode_encode.
+
+Theorem C16_signed_bytes_decode :
+  forall t, wire_okb t = true -> wire_decode (signed_bytes t) = Some (plain (set_sig None t)).
+Proof. exact signed_bytes_decode. Qed.
+Print Assumptions C16_signed_bytes_decode.
+
+Theorem C16_wire_decode_injective_refuted : ~ C16_wire_decode_injective_full.
+Proof. exact wire_decode_injective_refuted. Qed.
+Print Assumptions C16_wire_decode_injective_refuted.
+
+Theorem C16_wire_decode_injective_partial :
+  forall t1 t2, wire_okb t1 = true -> wire_okb t2 = true ->
+    wire_decode (encode_tx t1) = wire_decode (encode_tx t2) -> t1 = t2.
+Proof. exact wire_decode_injective_partial. Qed.
+Print Assumptions C16_wire_decode_injective_partial.
+
+(** the eth theorem with the decoding guard discharged *)
+Theorem C16_eth_unbound_outer_fields_ok :
+  forall cfg xaddr parse inner other ds t s h fee' expire' to' gc' hd' nx' cid',
+    wire_okb t = true -> outer_okb fee' expire' to' gc' hd' nx' cid' = true ->
+    signature t = Some s -> crypto_id (s_ty s) = eth_id ->
+    note_mode (action_of (xaddr (execer t)) (execer t) (payload t) (nonce t)) = true ->
+    check_sign ds (ethv cfg xaddr parse inner other) (with_outer t fee' expire' to' gc' hd' nx' cid') h =
+    check_sign ds (ethv cfg xaddr parse inner other) t h.
+Proof. exact eth_unbound_outer_fields_ok. Qed.
+Print Assumptions C16_eth_unbound_outer_fields_ok.
+
+Theorem C16_wire_decode_encode_unknown :
+  forall t ufs,
+    wire_okb t = true -> forallb simple_fieldb ufs = true -> forallb tx_unknownb ufs = true ->
+    wire_decode (encode_d (mk_dtx t nil (unk_bytes ufs))) = Some (mk_dtx t nil (unk_bytes ufs)).
+Proof. exact wire_decode_encode_unknown. Qed.
+Print Assumptions C16_wire_decode_encode_unknown.
